@@ -46,10 +46,43 @@ static char *ARENA; static size_t arena_used;
 static void *arena_malloc(struct hwloc_tma *tma, size_t n) { (void)tma; size_t a = (arena_used + 15) & ~15UL; if (a + n > ARENA_SIZE) { fprintf(stderr, "c17: arena exhausted\n"); abort(); } arena_used = a + n; return ARENA + a; }
 static struct hwloc_tma TMA;
 
-static hwloc_topology_t shared_from(const struct usrc *s, int refresh)
+/* variant 1: the topology is annotated and modified after load (a HOPS-kind matrix over the PUs, a latency matrix over the
+ * packages or NUMA nodes, a user memory attribute, then a restrict that removes the last PU): the documented precondition
+ * for readers is then hwloc_topology_refresh(), which is called on the shared copy only - the original is left with its
+ * lazily invalidated caches, so the refresh of the copy has real work to do */
+static hwloc_topology_t load_variant(const struct usrc *s, int variant)
 {
-  struct ucfg c; ucfg_keepall(&c); hwloc_topology_t t0, t = NULL;
-  if (univ_load(&t0, s, &c)) return NULL;
+  struct ucfg c; ucfg_keepall(&c); hwloc_topology_t t;
+  if (univ_load(&t, s, &c)) return NULL;
+  if (!variant) return t;
+  unsigned npu = hwloc_get_nbobjs_by_type(t, HWLOC_OBJ_PU);
+  if (npu < 4) { hwloc_topology_destroy(t); return NULL; }
+  hwloc_obj_t objs[8]; hwloc_uint64_t vals[64]; unsigned n = npu > 8 ? 8 : npu;
+  for (unsigned i = 0; i < n; i++) objs[i] = hwloc_get_obj_by_type(t, HWLOC_OBJ_PU, i);
+  for (unsigned i = 0; i < n * n; i++) vals[i] = (i / n == i % n) ? 0 : 1 + (i % 3);
+  hwloc_distances_add_handle_t h = hwloc_distances_add_create(t, "c17hops", HWLOC_DISTANCES_KIND_FROM_USER | HWLOC_DISTANCES_KIND_VALUE_HOPS, 0);
+  if (h && hwloc_distances_add_values(t, h, n, objs, vals, 0) == 0) hwloc_distances_add_commit(t, h, 0);
+  unsigned nn = hwloc_get_nbobjs_by_type(t, HWLOC_OBJ_NUMANODE);
+  if (nn >= 2) {
+    if (nn > 8) nn = 8;
+    for (unsigned i = 0; i < nn; i++) objs[i] = hwloc_get_obj_by_type(t, HWLOC_OBJ_NUMANODE, i);
+    for (unsigned i = 0; i < nn * nn; i++) vals[i] = (i / nn == i % nn) ? 10 : 20;
+    h = hwloc_distances_add_create(t, "c17lat", HWLOC_DISTANCES_KIND_FROM_USER | HWLOC_DISTANCES_KIND_VALUE_LATENCY, 0);
+    if (h && hwloc_distances_add_values(t, h, nn, objs, vals, 0) == 0) hwloc_distances_add_commit(t, h, 0);
+  }
+  hwloc_memattr_id_t id;
+  if (hwloc_memattr_register(t, "c17attr", HWLOC_MEMATTR_FLAG_HIGHER_FIRST, &id) == 0)
+    for (unsigned i = 0; i < hwloc_get_nbobjs_by_type(t, HWLOC_OBJ_NUMANODE); i++) hwloc_memattr_set_value(t, id, hwloc_get_obj_by_type(t, HWLOC_OBJ_NUMANODE, i), NULL, 0, 100 + i);
+  /* remove the last PU: every matrix over the PUs loses an object */
+  hwloc_bitmap_t keep = hwloc_bitmap_dup(hwloc_topology_get_topology_cpuset(t)); hwloc_bitmap_clr(keep, (unsigned)hwloc_bitmap_last(keep));
+  hwloc_topology_restrict(t, keep, 0); hwloc_bitmap_free(keep);
+  return t;
+}
+
+static hwloc_topology_t shared_from(const struct usrc *s, int variant)
+{
+  hwloc_topology_t t0 = load_variant(s, variant), t = NULL; int refresh = 1;
+  if (!t0) return NULL;
   arena_used = 0; memset(ARENA, 0, 4096);
   TMA.malloc = arena_malloc; TMA.data = NULL; TMA.dontfree = 1;
   if (hwloc__topology_dup(&t, t0, &TMA) < 0) t = NULL;
@@ -81,15 +114,16 @@ static void stage_readers(struct mcs_stats *tot)
     struct usrc s; memset(&s, 0, sizeof(s)); static char path[600];
     if (SRC[si][0] == '@') { snprintf(path, sizeof(path), "%s/harness/fixtures/%s", univ_verif(), SRC[si] + 1); s.kind = USRC_XMLFILE; s.text = path; } else { s.kind = USRC_SYNTHETIC; s.text = (char *)SRC[si]; }
     s.name = (char *)SRC[si];
+    for (int variant = 0; variant < 2; variant++) {
     struct rd r; memset(&r, 0, sizeof(r)); r.nthreads = T;
-    r.t = shared_from(&s, 1);
-    if (!r.t) { mc_note("source %s does not load", SRC[si]); continue; }
+    r.t = shared_from(&s, variant);
+    if (!r.t) { if (!variant) mc_note("source %s does not load", SRC[si]); continue; }
     for (int i = 0; i < T; i++) sb_init(&r.dig[i]);
     /* single-threaded reference digests (also warms nothing up: the globals are reset to the post-load state before every execution) */
     mcs_snapshot_globals();
     /* ... computed on a separate heap copy of the same source: running the battery on the shared topology here would
      * perform (and hide) any lazy update that a reader would otherwise have to do */
-    { struct ucfg c; ucfg_keepall(&c); hwloc_topology_t tref; if (univ_load(&tref, &s, &c)) { mc_note("source %s does not load twice", SRC[si]); continue; }
+    { hwloc_topology_t tref = load_variant(&s, variant); if (!tref) { mc_note("source %s does not load twice", SRC[si]); continue; }
       hwloc_topology_refresh(tref);
       for (int g = 0; g < BAT_NGROUPS; g++) { struct sb d; sb_init(&d); battery_group(tref, g, &d); r.ref[g] = strdup(d.s ? d.s : ""); sb_free(&d); }
       hwloc_topology_destroy(tref); }
@@ -100,7 +134,7 @@ static void stage_readers(struct mcs_stats *tot)
     int g[MCS_MAXT] = {0};
     for (g[0] = 0; g[0] < BAT_NGROUPS; g[0]++) for (g[1] = g[0]; g[1] < BAT_NGROUPS; g[1]++) for (g[2] = (T > 2 ? g[1] : 0); g[2] < (T > 2 ? BAT_NGROUPS : 1); g[2]++, idx++) {
       if (!mc_mine(idx) || mc_deadline()) continue;
-      snprintf(CASE, sizeof(CASE), "readers of %s: %s | %s%s%s", SRC[si], GN[g[0]], GN[g[1]], T > 2 ? " | " : "", T > 2 ? GN[g[2]] : "");
+      snprintf(CASE, sizeof(CASE), "readers of %s%s: %s | %s%s%s", SRC[si], variant ? " (annotated, restricted, refreshed)" : "", GN[g[0]], GN[g[1]], T > 2 ? " | " : "", T > 2 ? GN[g[2]] : "");
       if (!mc_case("%s", CASE)) continue;
       for (int i = 0; i < T; i++) r.group[i] = g[i];
       struct mcs_cfg cfg = { T, rd_body, rd_before, rd_after, &r, MC.thorough ? 3 : 2, 0, MC.thorough ? 600.0 : 150.0 };
@@ -116,6 +150,7 @@ static void stage_readers(struct mcs_stats *tot)
     }
     for (int gi = 0; gi < BAT_NGROUPS; gi++) free(r.ref[gi]);
     for (int i = 0; i < T; i++) sb_free(&r.dig[i]);
+    }
     /* negative control of the precondition: without hwloc_topology_refresh() after a modification readers do write.
      * Only counted (the property requires the refresh). */
   }
